@@ -8,7 +8,7 @@ SPEC = {
     "rule": "cases of 2..8 ops `exp x` / `ln x` / `pow x y` on stored integers at precision 34. Positive values: 1, e +-2 ulp, "
             "e^k +-1 ulp (k 2..12), 1 +- <500 ulp, 0.9 (= 1 - f), k/100, integers < 1000, exact powers of ten 1e-30..1e6, random "
             "digits at every decimal magnitude 1e-30..1e6; exp arguments of both signs (|x| mostly <= 60, some to 1e3, thorough: "
-            "rarely to 1e6); ln also at 0 and negatives (documented panic); pow bases incl. 0, 1, 0.9, negatives, exponents 0, 1, "
+            "rarely to 1e5 - exp arguments in 1e5..1e6 are not sampled: a 400 000-digit result takes minutes to print in the model); ln also at 0 and negatives (documented panic); pow bases incl. 0, 1, 0.9, negatives, exponents 0, 1, "
             "2..9, (0,1), 1e-10..1e2, both signs. distinct = sha1 of op text; non-trivial = the case has both an argument < 1 and an "
             "argument > 10 of exp/ln",
     "trusted_base": ["Model/RefMath.lean is a hand transcription of ref_exp / mp_exp_taylor / ipow / mp_ln_n / find_e / ref_ln / "
